@@ -287,6 +287,10 @@ class Ocp(Stage):
 
     def save(self,name):
         self._untranscribe()
+        # Drop what a previous, meanwhile invalidated, transcription left behind in the method objects
+        # (the stale augmented copy may still hold a method that was replaced since)
+        self._untranscribe_recurse(phase=1)
+        self._augmented._untranscribe_recurse(phase=1)
         import pickle
         with rockit_pickle_context():
             pickle.dump(self,open(name,"wb"))
